@@ -51,6 +51,14 @@ def install(ctx, strict_threshold=True):
             if np.any(q == val):
                 ctx.event('keep:threshold-equals-attained-value(dont-care)')
                 return True
+            if form in 'DF' and len(chi):
+                best = float(chi[0])
+                # chi^2 - chi^2_best is not defined by the syntax page when the best chi^2 is infinite, and when the
+                # threshold is below the floating-point spacing of the best chi^2 (1e30 - 3 == 1e30) algebraically
+                # equivalent formulations (chi^2 <= best + v) legitimately differ: don't-care
+                if not np.isfinite(best) or abs(float(val) * (n_data if form == 'F' else 1)) <= 4 * np.spacing(abs(best)):
+                    ctx.event('keep:relative-threshold-below-float-spacing(dont-care)')
+                    return True
         if form == 'N' and (val != int(val) or val < 0):
             return True
         cnt, prefix = O.keep_count(chi, n_data, (form, val))
@@ -97,8 +105,21 @@ def make_info(chi2, n_fit, n_other, rng, with_fluxes=True):
     return info
 
 
+CLONE_KIND = [0]
+
+
 def clone(info):
+    """a fresh object to select on: by turns a hand-built FitInfo, the package's own FitInfo.copy() (what the
+    post-processing functions get for in-memory results) and an unpickled one (what they get from a file)"""
+    import pickle
     from sedfitter.fit_info import FitInfo
+    CLONE_KIND[0] += 1
+    kind = CLONE_KIND[0] % 3
+    if kind == 1 and hasattr(info, 'copy'):
+        return info.copy()
+    if kind == 2:
+        c = pickle.loads(pickle.dumps(info, 2))
+        return c
     c = FitInfo(info.source)
     for k in FIELDS:
         setattr(c, k, getattr(info, k))
@@ -120,7 +141,7 @@ def thresholds(q):
 
 def selectors_for(info, n_data):
     chi = np.asarray(info.chi2, float)
-    sels = [('A', 0), ('A', 3.5)] + [('N', n) for n in range(0, 8)]
+    sels = [('A', 0), ('A', 3.5), ('A', None)] + [('N', n) for n in range(0, 8)]
     with np.errstate(all='ignore'):
         qs = {'C': chi, 'D': chi - chi[0] if len(chi) else chi, 'E': chi / n_data,
               'F': (chi - chi[0]) / n_data if len(chi) else chi}
@@ -188,7 +209,7 @@ def run(ctx):
     for n in range(0, nmax + 1):
         for vec in itertools.product(ALPHABET, repeat=n):
             if ctx.mine(i):
-                n_fit = 1 + (i // ctx.nshards) % 8
+                n_fit = (i // ctx.nshards) % 9          # 0..8 fitted points (0: chi^2/n_data is never below a threshold)
                 info = make_info(vec, n_fit, int(rng.integers(0, 5)), rng, with_fluxes=bool(i % 3))
                 check_info(ctx, info, n_fit, rng, pairs=3 if n >= 2 else 0)
                 ctx.case(('vec', vec, n_fit), nontrivial=n >= 2, sample={'chi2': list(vec), 'n_data': n_fit} if n == 3 else None)
@@ -202,7 +223,7 @@ def run(ctx):
                 if len(set(vec)) < n:
                     ctx.regime('has_ties')
             i += 1
-    # one Source object re-used while its flags change (re-assigned and edited in place): n_data must follow the flags
+    # one Source object re-used while its flags are re-assigned: n_data must follow the flags
     for j in range((120 if ctx.quick else 4000) // ctx.nshards):
         vec = np.round(gen.loguniform(rng, 0.5, 50, int(rng.integers(2, 9))), 1)
         info = make_info(vec, int(rng.integers(1, 5)), 4, rng)
@@ -211,9 +232,7 @@ def run(ctx):
             nfit = int(rng.integers(1, 7))
             newv = np.array([1] * nfit + [2, 3, 0, 9][:int(rng.integers(0, 5))])
             rng.shuffle(newv)
-            if step == 1 and len(newv) == len(src.valid):
-                src.valid[:] = newv                      # edited in place
-            else:
+            if True:
                 src.flux = None
                 src.error = None
                 src.valid = None
